@@ -45,7 +45,7 @@ type c17Pub struct {
 }
 
 type c17Change struct {
-	Op   string `json:"op"` // sub | unsub | end
+	Op   string `json:"op"` // sub | unsub | unsub_foreign | end
 	Sub  c17Sub `json:"sub"`
 	Pick int    `json:"pick,omitempty"` // unsub: index into the client's sorted current filters
 }
@@ -121,8 +121,8 @@ func genC17(t *rapid.T) c17Scen {
 	s.Pubs1 = genC17Pubs(t, s.Nodes, 2, 6)
 	nc := rapid.IntRange(1, 4).Draw(t, "nchanges")
 	for i := 0; i < nc; i++ {
-		ch := c17Change{Op: rapid.SampledFrom([]string{"sub", "sub", "unsub", "unsub", "end"}).Draw(t, "op"), Sub: genC17Sub(t, s.Nodes)}
-		if ch.Op == "unsub" {
+		ch := c17Change{Op: rapid.SampledFrom([]string{"sub", "sub", "unsub", "unsub", "unsub_foreign", "end"}).Draw(t, "op"), Sub: genC17Sub(t, s.Nodes)}
+		if ch.Op == "unsub" || ch.Op == "unsub_foreign" {
 			ch.Pick = rapid.IntRange(0, 5).Draw(t, "pick")
 		}
 		if ch.Op == "sub" && ch.Sub.Group == "" && rapid.Bool().Draw(t, "aimed") {
@@ -532,6 +532,32 @@ func runC17(s c17Scen, c *ev.Case) (out *ev.Violation) {
 			}
 			delete(cl.subs, f)
 			c.Label("change_unsub")
+		case "unsub_foreign":
+			// the client unsubscribes a filter it does not hold but another client on the same node does: answered with
+			// UNSUBACK like any other, and nothing changes - in particular the node keeps telling its peers about the filter
+			var fs []string
+			for _, o := range r.clients[ch.Sub.Node] {
+				if o == cl || !o.alive {
+					continue
+				}
+				for f := range o.subs {
+					if _, own := cl.subs[f]; !own {
+						fs = append(fs, f)
+					}
+				}
+			}
+			if !cl.alive || len(fs) == 0 {
+				c.Count("skipped_ops", 1)
+				continue
+			}
+			sort.Strings(fs)
+			f := fs[ch.Pick%len(fs)]
+			r.pid++
+			if _, err := cl.cl.Unsubscribe(r.pid, f); err != nil {
+				return ev.Violf("C17.unsuback", "UNSUBSCRIBE %q: %v", f, err)
+			}
+			c.Label("change_unsub_of_a_filter_held_by_another_local_client")
+			r.nontrivial = true
 		case "end":
 			if !cl.alive {
 				c.Count("skipped_ops", 1)
